@@ -8,8 +8,9 @@
      antismash/detection/nrps_pks_domains/domain_identification.py : filter_nonterminal_docking_domains
    No proofs in this file.
    Transcribes the code after the repairs F41 (merge: least start, greatest end), F42 (grouping loop
-   over hits[1:]), F43 (both hmmer sorts by (protein_start, ranking_stats)) and FC13a (filter_results
-   unites all the groups a linking pair touches).
+   over hits[1:]), F43 (both hmmer sorts by (protein_start, ranking_stats)), FC13a (filter_results
+   unites all the groups a linking pair touches) and C17-K5 filter_results_score_tie_set_order (filter_results
+   searches the best hit of a group in the order of the gene's hit list, not in set order).
 
    Numbers.  Floats never enter.  A bitscore s travels as the integer 2*s (the harness generates
    multiples of 0.5), an e-value as the integer e with float value e*1e-10 (strictly monotone), a
@@ -308,11 +309,17 @@ Definition pair_step (h : fhit) (s : res (list (list fhit))) (o : fhit) : res (l
 Definition overlapping_groups (cds : list fhit) : res (list (list fhit)) :=
   fold_left (fun s h => fold_left (pair_step h) cds s) cds (Ok []).
 
-(* best = list(group)[0]; for hit in group: if hit.bitscore > best.bitscore: best = hit
-   - the group is iterated in set order (ascending f_rank) *)
+(* a group is a set of identity-hashed objects: `for hit in group` iterates it in set order (ascending f_rank) *)
 Definition rank_order (g : list fhit) : list fhit := sort_by (fun a b => f_rank a <? f_rank b) g.
-Definition best_of (g : list fhit) : option fhit :=
-  match rank_order g with
+(* ordered = [hit for hit in cdsresults if hit in group]      (cdsresults IS results_by_id[cds], the live list)
+   best = ordered[0]; for hit in ordered: if hit.bitscore > best.bitscore: best = hit
+   - since the repair of filter_results_score_tie_set_order the best hit is searched in the order of the gene's hit list:
+     of several hits with the highest bitscore the first one listed is kept (before: `best = list(group)[0]; for hit in
+     group`, i.e. best_of (rank_order g)).  `ordered[0]` of an empty list (IndexError) does not occur: a group is a
+     non-empty set of hits of the live list (C13_filter_results_best_of) *)
+Definition hit_order (mine g : list fhit) : list fhit := filter (fun h => fmem h g) mine.
+Definition best_of (ordered : list fhit) : option fhit :=
+  match ordered with
   | [] => None
   | b :: r => Some (fold_left (fun best h => if f_sc best <? f_sc h then h else best) (b :: r) b)
   end.
@@ -328,7 +335,8 @@ Definition removal_step (best : fhit) (s : list fhit * list fhit * list Z) (h : 
   else (remove_id (f_id h) results, remove_id (f_id h) mine, f_id h :: removed).
 
 Definition group_pass (s : list fhit * list fhit * list Z) (g : list fhit) : list fhit * list fhit * list Z :=
-  match best_of g with
+  let '(_, mine, _) := s in
+  match best_of (hit_order mine g) with
   | None => s
   | Some best => fold_left (removal_step best) (rank_order g) s
   end.
